@@ -32,11 +32,16 @@ type Contract struct {
 	Mode     Mode
 	Requires []*Clause
 	Ensures  []*Clause
+	// Comparator: `closure k: comparator [Cxx] name: P` — P over the literal's two index parameters, `result`
+	// (less(i, j)) and `swapped` (less(j, i)); proved at the sort call for all distinct in-range i, j
+	Comparator []*Clause
 	Loops    map[int][]*Clause
 	Closures map[int]*Contract
 	Modifies []*Clause
 	ModSet   bool
 	Claims   map[string]bool
+	// ClaimProps: for claims merged in from an `auto` line, the properties of that line
+	ClaimProps map[string][]string
 	Covers   []*Clause
 	Assumed  bool // contract of an unverified dependency
 	Pure     bool // result is a function of the arguments (and the ghost heap version)
@@ -134,7 +139,7 @@ type ContractSet struct {
 }
 
 var clauseKw = map[string]bool{"uninterpreted": true, "uses": true, "timeout": true, "callsite": true, "forbid": true, "allocbound": true, "callback": true, "auto": true, "interface": true, "func": true, "pure": true, "opaque": true, "ghost": true, "call": true, "assume": true, "lemma": true, "arith": true, "requires": true,
-	"ensures": true, "proves": true, "loop": true, "closure": true, "modifies": true, "claims": true, "cover": true, "inline": true,
+	"ensures": true, "proves": true, "comparator": true, "loop": true, "closure": true, "modifies": true, "claims": true, "cover": true, "inline": true,
 	"replay": true, "props": true, "split": true, "hint": true, "end": true}
 
 // LoadContracts reads every zz_verif_contracts.go below root.
@@ -497,6 +502,12 @@ func addClause(c *Contract, text string, line int) error {
 			return nil
 		}
 		c.Ensures = append(c.Ensures, cl)
+	case "comparator":
+		cl, err := mk(rest)
+		if err != nil {
+			return err
+		}
+		c.Comparator = append(c.Comparator, cl)
 	case "cover":
 		cl, err := mk(rest)
 		if err != nil {
